@@ -1,5 +1,6 @@
 from __future__ import annotations
 
+from copy import copy
 from typing import Any
 
 from ..context import DEFAULT_SQL_CONTEXT, SqlContext
@@ -92,5 +93,11 @@ class SQLLiteQueryBuilder(QueryBuilder):
             if self._limit:
                 querystring += self._limit_sql(ctx)
         else:
-            querystring = super().get_sql(ctx=ctx)
+            builder = self
+            if self._insert_table and self._selects and self._from and self._on_conflict and not self._wheres:
+                # SQLite reads the ON of "... FROM t ON CONFLICT ..." as a join constraint and rejects the statement;
+                # its documentation prescribes a WHERE clause (even an always-true one) on the SELECT of an upsert
+                builder = copy(self)
+                builder._wheres = SQLLiteValueWrapper(True, allow_parametrize=False)  # type:ignore[assignment]
+            querystring = QueryBuilder.get_sql(builder, ctx=ctx)
         return querystring
